@@ -17,7 +17,9 @@ FUNCS = ("cutplace.validio.Reader.rows", "cutplace.validio.Reader.__init__", "cu
 CID_TEXT = ("d,format,delimited\nf,k,,,,Choice,\"a,b\"\nf,v,,X,...1,Text,\n"
             "c,uniq,IsUnique,k\nc,dist,DistinctCount,k <= 1\n")
 OPS = ("rows-yield", "rows-continue", "rows-raise", "validate", "writer", "reader-late", "reader-unclosed-then-close",
-       "iterator-early", "reader-early-unread")
+       "iterator-early", "reader-early-unread", "unused-reader-dropped-midrun")
+# the outcome on a fresh CID is computed with this operation instead (same outcome structure, no forgotten validator)
+BASELINE_OP = {"unused-reader-dropped-midrun": "reader-late"}
 
 
 def inject(cid, has_a, has_b, la, lb, ca, cb):
@@ -97,6 +99,24 @@ def operate(cid, op, rows, dirty=None, limit=None):
             dirty()
         for r in it:
             note(r)
+        try:
+            reader.close()
+        except errors.CheckError as e:
+            close_raised = err(e)
+    elif op == "unused-reader-dropped-midrun":
+        # a validator that was created but never used is forgotten (garbage collected) while another run on the same
+        # CID is under way: that run is judged as if the forgotten validator had never existed
+        unused = validio.Reader(cid, rows, on_error="yield")
+        if dirty:
+            dirty()
+        reader = validio.Reader(cid, rows, on_error="yield", validate_until=limit)
+        first = True
+        for r in reader.rows():
+            note(r)
+            if first:
+                first = False
+                unused = None  # noqa: F841  (drops the last reference)
+        unused = None  # noqa: F841
         try:
             reader.close()
         except errors.CheckError as e:
@@ -182,7 +202,7 @@ def make(op, nrows):
         with patched(rf.smart_repr(), *rf.srows_patches()):
             fresh = rf.build_cid(CID_TEXT)
             rf.set_header(fresh, header)
-            expected = operate(fresh, op, rows, limit=limit)
+            expected = operate(fresh, BASELINE_OP.get(op, op), rows, limit=limit)
             used = rf.build_cid(CID_TEXT)
             rf.set_header(used, header)
             got = operate(used, op, rows, dirty=lambda: inject(used, has_a, has_b, la, lb, ca, cb), limit=limit)
@@ -242,7 +262,7 @@ def make(op, nrows):
         with patched(*rf.srows_patches()):
             fresh = interface.create_cid_from_string(CID_TEXT)
             fresh.data_format._header = args.get("header", 0)
-            expected = operate(fresh, op, rows, limit=lim)
+            expected = operate(fresh, BASELINE_OP.get(op, op), rows, limit=lim)
             used = interface.create_cid_from_string(CID_TEXT)
             used.data_format._header = args.get("header", 0)
             got = operate(used, op, rows, dirty=lambda: history(used), limit=lim)
